@@ -280,9 +280,14 @@ class MonitorPool(Module):
             basis. Its monitors are however deleted.
         """
         if name in self.monitors_:
-            for monitor in self.monitors_[name].values():
-                monitor.deregister()
+            removed = [*self.monitors_[name].values()]
             del self.monitors_[name]
+
+            # a pooled monitor stays registered while another observable still uses it
+            inuse = {id(m) for m in self.monitors}
+            for monitor in removed:
+                if id(monitor) not in inuse:
+                    monitor.deregister()
 
         if name in self.observed_:
             del self.observed_[name]
@@ -383,9 +388,13 @@ class MonitorPool(Module):
             )
 
         # delete the monitor
-        self.monitors_[observed][monitor].deregister()
+        removed = self.monitors_[observed][monitor]
         del self.monitors_[observed][monitor]
 
         # delete group if empty
         if not len(self.monitors_[observed]):
             del self.monitors_[observed]
+
+        # a pooled monitor stays registered while another observable still uses it
+        if all(removed is not m for m in self.monitors):
+            removed.deregister()
